@@ -18,7 +18,7 @@ type decCase struct {
 }
 
 var (
-	curveA = new(big.Int).Sub(modP, big.NewInt(5))
+	curveA    = new(big.Int).Sub(modP, big.NewInt(5))
 	curveD, _ = new(big.Int).SetString("6389c12633c267cbc66e3bf86be3b6d8cb66677177e54f92b369f2f5188d58e7", 16)
 )
 
